@@ -706,17 +706,20 @@ package cbor
 // byte is printable ASCII other than quote and backslash, otherwise through
 // decodeStringComplex (one escaper for both kinds).
 //@ track decodeStringComplex
+//@ spec asciiplain(b byte) bool = b >= 32 && b <= 126 && b != 34 && b != 92
 //@ func decodeString(src, noQuotes) res
 //@   props C08
 //@   arith bv
 //@   flag tags binary_log
 //@   ensures old(len(content(src))) > 0 && old(content(src))[0] >> 5 == 2 && samearray(content(src), old(content(src))) && (off(content(src)) - old(off(content(src)))) >= strhead(old(content(src))[0])
 //@   ensures ncalls(decodeStringComplex) >= old(ncalls(decodeStringComplex)) && ncalls(decodeStringComplex) <= old(ncalls(decodeStringComplex)) + 1
-//@   ensures !noQuotes && ncalls(decodeStringComplex) == old(ncalls(decodeStringComplex)) ==> len(res) == (off(content(src)) - old(off(content(src)))) - strhead(old(content(src))[0]) + 2 && res[0] == '"' && res[len(res)-1] == '"'
+//@   ensures !noQuotes && ncalls(decodeStringComplex) == old(ncalls(decodeStringComplex)) ==> len(res) >= 2 && res[0] == '"' && res[len(res)-1] == '"'
 //@   ensures ncalls(decodeStringComplex) == old(ncalls(decodeStringComplex)) + 1 ==> len(callarg(decodeStringComplex, old(ncalls(decodeStringComplex)), 1)) == (off(content(src)) - old(off(content(src)))) - strhead(old(content(src))[0]) && len(res) == len(callres(decodeStringComplex, old(ncalls(decodeStringComplex)), 0)) + 1 && res[len(res)-1] == '"' && prefix(res, callres(decodeStringComplex, old(ncalls(decodeStringComplex)), 0)) && len(callarg(decodeStringComplex, old(ncalls(decodeStringComplex)), 0)) == 1 && callarg(decodeStringComplex, old(ncalls(decodeStringComplex)), 0)[0] == '"'
 //@   ensures noQuotes ==> ncalls(decodeStringComplex) == old(ncalls(decodeStringComplex)) && len(res) == (off(content(src)) - old(off(content(src)))) - strhead(old(content(src))[0])
+//@   ensures !noQuotes && ncalls(decodeStringComplex) == old(ncalls(decodeStringComplex)) ==> (forall k in 0..len(res)-2: asciiplain(res[1+k]))
 //@   loop 1:
 //@     invariant 0 <= i
+//@     invariant forall k in 0..i: asciiplain(result_readNBytes[k])
 
 //@ func decodeUTF8String(src) res
 //@   props C08
@@ -724,10 +727,12 @@ package cbor
 //@   flag tags binary_log
 //@   ensures old(len(content(src))) > 0 && old(content(src))[0] >> 5 == 3 && samearray(content(src), old(content(src))) && (off(content(src)) - old(off(content(src)))) >= strhead(old(content(src))[0])
 //@   ensures ncalls(decodeStringComplex) >= old(ncalls(decodeStringComplex)) && ncalls(decodeStringComplex) <= old(ncalls(decodeStringComplex)) + 1
-//@   ensures ncalls(decodeStringComplex) == old(ncalls(decodeStringComplex)) ==> len(res) == (off(content(src)) - old(off(content(src)))) - strhead(old(content(src))[0]) + 2 && res[0] == '"' && res[len(res)-1] == '"'
+//@   ensures ncalls(decodeStringComplex) == old(ncalls(decodeStringComplex)) ==> len(res) >= 2 && res[0] == '"' && res[len(res)-1] == '"'
 //@   ensures ncalls(decodeStringComplex) == old(ncalls(decodeStringComplex)) + 1 ==> len(callarg(decodeStringComplex, old(ncalls(decodeStringComplex)), 1)) == (off(content(src)) - old(off(content(src)))) - strhead(old(content(src))[0]) && len(res) == len(callres(decodeStringComplex, old(ncalls(decodeStringComplex)), 0)) + 1 && res[len(res)-1] == '"' && prefix(res, callres(decodeStringComplex, old(ncalls(decodeStringComplex)), 0)) && len(callarg(decodeStringComplex, old(ncalls(decodeStringComplex)), 0)) == 1 && callarg(decodeStringComplex, old(ncalls(decodeStringComplex)), 0)[0] == '"'
+//@   ensures ncalls(decodeStringComplex) == old(ncalls(decodeStringComplex)) ==> (forall k in 0..len(res)-2: asciiplain(res[1+k]))
 //@   loop 1:
 //@     invariant 0 <= i
+//@     invariant forall k in 0..i: asciiplain(result_readNBytes[k])
 
 // an integer item: major type 0 gives the argument, major type 1 gives -1 - argument
 //@ func decodeInteger(src) res
